@@ -5,6 +5,8 @@ import vlib, flow
 import amlgen
 
 H = os.path.join(vlib.ROOT, 'harness/kernel/device/acpi/aml')
+import gen_trans
+gen_trans.register('aml_reader.json')   # Go -> Gallina translation of amlStreamReader (Gen/Trans_aml_reader.v, used by Aml/StreamTrans.v)
 vlib.register_const_dump('kernel', 'device/acpi/aml', os.path.join(H, 'zz_verif_consts_test.go'))
 # the object-pool model Aml/Tree.v (C13) needs its own generated constants
 vlib.register_const_dump('kernel', 'device/acpi/aml', os.path.join(H, 'zz_verif_consts_tree_test.go'),
@@ -16,7 +18,7 @@ FN = ['parsePkgLength', 'parseNumConstant', 'parseString', 'parseNameString', 'n
 
 class C12(flow.Spec):
     prop = 'C12'
-    props_files = ['theories/Props/C12.v', 'theories/Props/C12_examples.v']
+    props_files = ['theories/Props/C12.v', 'theories/Props/C12_examples.v', 'theories/Props/C12_reader_trans.v']
     model_targets = ['theories/Aml/RunC12.vo', 'theories/Aml/ParserProofsTop.vo', 'theories/Aml/ParserTotalTop.vo', 'theories/Aml/ParserTotalCalls.vo', 'theories/Aml/ParserTotalReloc.vo', 'theories/Aml/ParserTotalMerge.vo']
     pkg = 'device/acpi/aml'
     harness = [os.path.join(H, 'zz_verif_c12_test.go'), os.path.join(H, 'zz_verif_amlcommon_test.go')]
